@@ -17,7 +17,8 @@ from vlib import core, corr
 DEPENDS = ["RecBase", "Reno", "Cubic", "Pacer", "Recovery", "RecoveryFloat", "C08Consts", "RecoveryProofs",
            "RenoProofs", "CubicProofs", "RangeSet", "Base", "Tok", "C08",
            "Builder", "C13Consts", "BuilderProofs", "BuilderFlight", "BuilderFlightAE", "FlightBudget", "FloatMono", "CubicFloor",
-           "C08Probe", "ProbeBudget", "ProbeBudgetProofs", "ProbeFlight"]
+           "C08Probe", "ProbeBudget", "ProbeBudgetProofs", "ProbeFlight",
+           "C13Writers", "Writers", "ProbeWriters", "ProbeQuiet", "ProbeWritersProofs", "ProbeBudgetExec"]
 GENERATORS = ["c08_consts", "c13_consts", "c08_probe"]
 TRUSTED_BASE = [
     "vm_compute evaluation of the PrimFloat instance (coqc, no extraction); Coq's primitive floats = IEEE binary64 "
@@ -35,7 +36,14 @@ TRUSTED_BASE = [
     "the frame writers) are modelled by coq/model/ProbeBudget.v as an interpreter of coq/gen/C08Probe.v, which "
     "tools/gen/c08_probe.py writes from the AST of connection.py / recovery.py (trusted: the generator's recognition of the "
     "statement shapes; it fails closed on anything it does not recognise); what is pending, what the packet builder and the "
-    "pacer answer are arbitrary decision inputs of that model, not tied to the builder model; on_packet_sent for every packet "
+    "pacer answer are decision inputs of that model; since round e08 the decisions of the 1-RTT packet loop are computed from "
+    "C13's writer model on the builder model (coq/model/ProbeWriters.v abs_iter, per loop iteration) for the theorems "
+    "prestop_characterised / one_probe_per_timeout_no_control_frames / f3_extra_datagrams_bounded, the handshake-level decisions and "
+    "pacing stay arbitrary; the extracted machine (exec_probebudget; extraction with ExtrOcamlNativeString for the generated writer "
+    "names) is compared op by op with real connections by the suite probebudget, whose projection wraps _write_handshake, "
+    "_write_application, the frame writers and builder.start_packet as instance attributes and reads builder._packet.is_ack_eliciting, "
+    "builder.max_flight_bytes, _state, _close_pending, _handshake_complete / _confirmed, _cryptos and - as the labelled peek the model "
+    "must predict - _probe_pending; on_packet_sent for every packet "
     "and the frame writers' discipline as before (flight_budget composes the builder model with on_packet_sent under the stated "
     "discipline).  The connection level is explored by the system-level oracles (sim_run, probe_run: two real QuicConnections "
     "over a simulated network; read the private attributes _loss, _max_datagram_size and wrap _loss._send_probe / "
@@ -70,6 +78,11 @@ ASSUMPTIONS = [
     "ack-eliciting frame; calls cut by QuicPacketBuilderStop at or ahead of the probe PING of a 1-RTT packet after an "
     "ack-eliciting frame was written are excluded (for them the statement is refuted: one_probe_per_timeout_refuted, finding "
     "C08-F3); grants = probe timeouts fired + at most one early retransmission (the one-shot reschedule_data() of the receive path)",
+    "one_probe_per_timeout_no_control_frames: the 1-RTT decisions of every call are abs_iter of a writer-model input with no frame "
+    "pending for a writer ahead of the probe PING (ACK included); prestop_characterised: the writer input's ai_ping_probe equals the "
+    "flag (true) and nothing ack-eliciting was written earlier in the call; prestop_fills_packet / f3_extra_datagrams_bounded: fresh "
+    "packet, the frame types handed to STREAMS_BLOCKED / MAX_DATA / MAX_STREAMS are in-flight types (ctl_fts_ok), at least R bytes of "
+    "room when the packet starts",
     "flight_budget*: every packet type maps to an existing packet space (sp t < number of spaces); the budget is computed from "
     "congestion_window and bytes_in_flight as they are BEFORE the call (CUBIC may reset the window inside on_packet_sent)",
 ]
@@ -719,6 +732,196 @@ class _Recording:
         self._conn.QuicPacketBuilder = self._base
 
 
+
+# ------------------------------------------------------------------------------------ op-by-op tie of model/ProbeBudget.v
+PB_HISTORIES = []          # one {"origin":..., "ops": [...]} per watched endpoint (suite `probebudget`)
+PB_ORIGIN = [None]         # replay parameters of the run that is being recorded
+_PB_WR = {"none": 0, "written": 1, "stop": 2, "stop_wrote": 3}
+
+
+def _pb_writer_names():
+    """names of the frame writers ahead of / after the probe PING in _write_application, from the generated gen/C08Probe.v"""
+    import os
+    import re
+    out = {"before": [], "after": []}
+    try:
+        txt = open(os.path.join(core.VERIF, "coq", "gen", "C08Probe.v")).read()
+        for k in out:
+            m = re.search(r"Definition app_writers_%s : list string := \[(.*?)\]\." % k, txt)
+            out[k] = re.findall(r'"(\w+)"%string', m.group(1)) if m else []
+    except OSError:
+        pass
+    return out
+
+
+class _PBProject:
+    """Projects what one QuicConnection does onto the ops of model/ProbeBudget.v (ETimeout / EEarly / ECall with decisions).
+
+    The decisions of a datagrams_to_send call are OBSERVED by wrapping (instance attributes) _write_handshake,
+    _write_application, every frame writer they call, and builder.start_packet of the builder they are handed: per packet-loop
+    iteration whether start_packet returned, whether the writers ahead of / after the probe PING returned or raised
+    QuicPacketBuilderStop and whether the open packet was ack-eliciting then (private read builder._packet.is_ack_eliciting),
+    whether the probe PING's writer returned.  After every op the expected model output is recorded: for a call
+    (budget raised = builder.max_flight_bytes differs from congestion_window - bytes_in_flight when the first writer runs,
+    an ack-eliciting packet was registered, LABELLED PEEK int(conn._probe_pending)); for a timeout / early retransmission
+    the labelled peek only."""
+
+    def __init__(self, conn, origin):
+        self.conn = conn
+        self.hist = {"origin": origin, "ops": []}
+        PB_HISTORIES.append(self.hist)
+        self.ev = None
+        names = _pb_writer_names()
+        self.before, self.after = set(names["before"]), set(names["after"])
+        self.ok = bool(self.before and self.after)
+        for nm in sorted(self.before | self.after | {"_write_ack_frame", "_write_crypto_frame", "_write_ping_frame"}):
+            if hasattr(conn, nm):
+                self._wrap_writer(nm)
+        self._wrap_loop("_write_handshake")
+        self._wrap_loop("_write_application")
+
+    # -- wrappers ---------------------------------------------------------------------
+    @staticmethod
+    def _ae(builder):
+        pk = getattr(builder, "_packet", None)
+        return bool(pk is not None and pk.is_ack_eliciting)
+
+    def _wrap_writer(self, nm):
+        from aioquic.quic.packet_builder import QuicPacketBuilderStop
+        orig = getattr(self.conn, nm)
+
+        def w(*a, **kw):
+            if self.ev is None:
+                return orig(*a, **kw)
+            builder = kw.get("builder", a[0] if a else None)
+            e = {"k": "w", "name": nm, "probe": kw.get("comment") == "probe", "out": "ok", "ret": None, "ae": False}
+            self.ev.append(e)
+            try:
+                e["ret"] = orig(*a, **kw)
+                return e["ret"]
+            except QuicPacketBuilderStop:
+                e["out"] = "stop"
+                raise
+            finally:
+                e["ae"] = self._ae(builder)
+        setattr(self.conn, nm, w)
+
+    def _wrap_loop(self, nm):
+        from aioquic.quic.packet_builder import QuicPacketBuilderStop
+        orig = getattr(self.conn, nm)
+
+        def w(builder, *a, **kw):
+            if self.ev is None:
+                return orig(builder, *a, **kw)
+            if self.first_mf is None:
+                self.first_mf = (builder.max_flight_bytes,)
+            sp = builder.start_packet
+
+            def start_packet(*pa, **pk):
+                e = {"k": "sp", "ok": True}
+                self.ev.append(e)
+                try:
+                    return sp(*pa, **pk)
+                except QuicPacketBuilderStop:
+                    e["ok"] = False
+                    raise
+            builder.start_packet = start_packet
+            e = {"k": "loop", "name": nm, "epoch": getattr(a[0] if a else kw.get("epoch"), "value", -1) if nm == "_write_handshake" else -1, "stop": False}
+            self.ev.append(e)
+            try:
+                return orig(builder, *a, **kw)
+            except QuicPacketBuilderStop:
+                e["stop"] = True
+                raise
+            finally:
+                self.ev.append({"k": "end"})
+                del builder.start_packet
+        setattr(self.conn, nm, w)
+
+    # -- ops ---------------------------------------------------------------------------
+    def timeout(self, pto):
+        self.hist["ops"].append({"op": [0, int(pto)], "exp": [int(self.conn._probe_pending)]})
+
+    def early(self):
+        self.hist["ops"].append({"op": [1], "exp": [int(self.conn._probe_pending)]})
+
+    def begin_call(self):
+        from aioquic.quic.connection import END_STATES
+        from aioquic import tls
+        conn, rec = self.conn, self.conn._loss
+        cr = getattr(conn, "_cryptos", {})
+        hk = tls.Epoch.HANDSHAKE in cr and cr[tls.Epoch.HANDSHAKE].send.is_valid()
+        self.pre = {"skip": int(conn._state in END_STATES or not conn._network_paths), "close": int(conn._close_pending),
+                    "low": int(rec.congestion_window - rec.bytes_in_flight < conn._max_datagram_size),
+                    "hc": int(conn._handshake_complete), "hk": int(hk), "cf": int(conn._handshake_confirmed),
+                    "base": rec.congestion_window - rec.bytes_in_flight, "pp": int(conn._probe_pending)}
+        self.ev, self.first_mf = [], None
+
+    def end_call(self, new_packets):
+        ev, self.ev = self.ev, None
+        pre = self.pre
+        loops, cur = [], None
+        for e in ev:
+            if e["k"] == "loop":
+                cur = {"name": e["name"], "epoch": e["epoch"], "stop": e, "its": []}
+                loops.append(cur)
+            elif e["k"] == "end":
+                cur = None
+            elif cur is not None:
+                if e["k"] == "sp":
+                    cur["its"].append({"start": e["ok"], "w": []})
+                elif cur["its"]:
+                    cur["its"][-1]["w"].append(e)
+        enc = {"initial": [0], "handshake": [0], "app": [0]}
+        gaps = 0
+        nstop = {"before": 0, "probe": 0}
+        for lp in loops:
+            raised_stop = lp["stop"]["stop"]
+            toks = []
+            for k, it in enumerate(lp["its"]):
+                last = k == len(lp["its"]) - 1
+                halted = last and raised_stop
+                ws = it["w"]
+                if lp["name"] == "_write_handshake":
+                    ack = cry = 0
+                    ping_ok = 1
+                    for e in ws:
+                        if e["name"] == "_write_ack_frame":
+                            ack = 2 if e["out"] == "stop" else 0
+                            gaps += int(e["ae"])              # ACK-of-ACK PING in a handshake packet: not in the model
+                        elif e["name"] == "_write_crypto_frame":
+                            cry = 2 if e["out"] == "stop" else (1 if e["ret"] else 0)
+                        elif e["name"] == "_write_ping_frame" and e["probe"]:
+                            ping_ok = int(e["out"] == "ok")
+                    toks += [int(it["start"]), ack, cry, ping_ok, int(last and not halted)]
+                else:
+                    bef = [e for e in ws if e["name"] in self.before and not e["probe"]]
+                    aft = [e for e in ws if e["name"] in self.after]
+                    stopped_in = None
+                    if halted and it["start"] and ws and ws[-1]["out"] == "stop":
+                        stopped_in = "probe" if ws[-1]["probe"] else ("before" if ws[-1]["name"] in self.before else "after")
+                    if stopped_in == "before":
+                        b = 3 if ws[-1]["ae"] else 2
+                    else:
+                        b = 1 if (bef and bef[-1]["ae"]) else 0
+                    ping_ok = 0 if stopped_in == "probe" else 1
+                    if stopped_in == "after":
+                        a_ = 3 if ws[-1]["ae"] else 2
+                    else:
+                        a_ = 1 if (aft and aft[-1]["ae"]) else 0
+                    toks += [0, int(it["start"]), b, ping_ok, a_, int(last and not halted)]
+                    nstop["before"] += int(stopped_in == "before")
+                    nstop["probe"] += int(stopped_in == "probe")
+            key = "app" if lp["name"] == "_write_application" else ("initial" if lp["epoch"] == 0 else "handshake")
+            enc[key] = [1, len(lp["its"])] + toks
+        op = [3, pre["skip"], pre["close"], pre["low"], pre["hc"], pre["hk"], pre["cf"]] + enc["initial"] + enc["handshake"] + enc["app"]
+        raised = int(self.first_mf is not None and self.first_mf[0] != pre["base"])
+        ae = int(any(p.is_ack_eliciting for p in new_packets)) if not pre["close"] else 0
+        self.hist["ops"].append({"op": op, "exp": [raised, ae, int(self.conn._probe_pending)], "pp_before": pre["pp"],
+                                 "hs_ack_ping": gaps, "iters": sum(len(lp["its"]) for lp in loops),
+                                 "stop_before": nstop["before"], "ping_stop": nstop["probe"]})
+
+
 # ------------------------------------------------------------------------------------ system-level oracle
 class _ProbeWatch:
     """Independent account of the probe allowance of one endpoint ("one probe datagram per timeout").
@@ -745,6 +948,12 @@ class _ProbeWatch:
         self.calls = 0
         self.history = []          # compact event list for the replay text: ("T"|"E",) / ("D", room, bytes, datagrams)
         self._in_timeout = False
+        self._probed = False
+        try:
+            self.pb = _PBProject(conn, PB_ORIGIN[0])
+        except Exception as e:         # the projection must never disturb the oracle
+            core.log("C08 probebudget projection not installed: %r" % (e,))
+            self.pb = None
         rec = conn._loss
         orig_probe = rec._send_probe
         orig_timeout = rec.on_loss_detection_timeout
@@ -754,14 +963,22 @@ class _ProbeWatch:
             self.grants[kind] += 1
             self.credit += 1
             self.history.append(("T" if self._in_timeout else "E",))
-            return orig_probe()
+            self._probed = True
+            try:
+                return orig_probe()
+            finally:
+                if self.pb is not None and not self._in_timeout:
+                    self.pb.early()
 
         def on_loss_detection_timeout(*, now):
             self._in_timeout = True
+            self._probed = False
             try:
                 return orig_timeout(now=now)
             finally:
                 self._in_timeout = False
+                if self.pb is not None:
+                    self.pb.timeout(self._probed)
         rec._send_probe = send_probe
         rec.on_loss_detection_timeout = on_loss_detection_timeout
 
@@ -773,9 +990,18 @@ class _ProbeWatch:
         before = self.snapshot()
         cw, bif = rec.congestion_window, rec.bytes_in_flight
         credit = self.credit
-        dgs = conn.datagrams_to_send(now)
+        if self.pb is not None:
+            self.pb.begin_call()
+        try:
+            dgs = conn.datagrams_to_send(now)
+        finally:
+            if self.pb is not None:
+                self.pb.ev, pb_ev = None, self.pb.ev
         self.calls += 1
         new = [(i, pn, rec.spaces[i].sent_packets[pn]) for (i, pn) in sorted(self.snapshot() - before)]
+        if self.pb is not None:
+            self.pb.ev = pb_ev
+            self.pb.end_call([p_ for _, _, p_ in new])
         budgeted = sum(p.sent_bytes for _, _, p in new if p.in_flight and p.is_ack_eliciting)
         room = max(cw - bif, 0)
         mds = conn._max_datagram_size
@@ -952,6 +1178,7 @@ def system_runs(ctx, n):
     for k in range(n):
         params = {"seed": ctx.seed + k, "cc": ("reno", "cubic")[k % 2], "loss": (0.0, 0.05, 0.2, 0.4)[(k // 2) % 4],
                   "nbytes": (60000, 200000)[(k // 8) % 2], "extra": bool((k // 4) % 2)}
+        PB_ORIGIN[0] = {"sim": params}
         try:
             with _Recording():
                 log, st = sim_run(params["seed"], params["cc"], params["loss"], params["nbytes"], extra=params["extra"])
@@ -1186,6 +1413,7 @@ def probe_runs(ctx, n):
         return tot
     reported = set()
     for params in probe_params(ctx, n):
+        PB_ORIGIN[0] = {"probe": params}
         try:
             log, st = probe_run(params)
         except Exception as e:
@@ -1707,6 +1935,114 @@ def _tally(s, cases):
             h["some-packet-acked"] += 1
 
 
+
+# ------------------------------------------------------------------------------------ suite `probebudget`
+PB_CHUNK = 300
+
+
+def pb_chunks(hists):
+    """cut the recorded histories into cases of at most PB_CHUNK ops; a case that starts with the flag set begins with one
+    probe-timeout op (the model's state is the flag and the one-shot bit of the early retransmission, which fires once);
+    calls the model cannot express (an ACK-of-ACK PING in an Initial / Handshake packet) end a case and are counted"""
+    cases, skipped = [], 0
+    for h in hists:
+        cur, k, pp = [], 0, 0
+        def close():
+            nonlocal cur, k
+            if any(o["op"][0] == 3 for o in cur):
+                cases.append({"origin": h["origin"], "chunk": k, "ops": cur})
+                k += 1
+            cur = []
+        for o in h["ops"]:
+            if o.get("hs_ack_ping"):
+                skipped += 1
+                close()
+                pp = o["exp"][-1]
+                continue
+            if not cur and pp:
+                cur.append({"op": [0, 1], "exp": [1], "synthetic": True})
+            cur.append(o)
+            pp = o["exp"][-1]
+            if len(cur) >= PB_CHUNK:
+                close()
+        close()
+    return cases, skipped
+
+
+def pb_oracle(case):
+    """the probe allowance on the observations alone (no model): a call's budget is raised only with the flag set, a call never
+    sets the flag, and the raised calls that registered an ack-eliciting packet and left the flag clear are at most the grants"""
+    grants = probes = 0
+    pp = 0
+    for i, o in enumerate(case["ops"]):
+        op, exp = o["op"], o["exp"]
+        if op[0] == 0:
+            grants += int(bool(op[1]))
+        elif op[0] == 1:
+            grants += 1
+        elif op[0] == 3:
+            raised, ae, after = exp
+            before = o.get("pp_before", pp)
+            if raised and not before:
+                return ("op %d: the budget of a datagrams_to_send call was raised to one datagram while _probe_pending was False" % i,
+                        {"rule": "probe_allowance", "level": "connection", "suite": "probebudget", "cause": "raised_without_flag"})
+            if after and not before:
+                return ("op %d: a datagrams_to_send call SET _probe_pending" % i,
+                        {"rule": "probe_allowance", "level": "connection", "suite": "probebudget", "cause": "flag_set_by_call"})
+            if raised and ae and not after:
+                probes += 1
+                if probes > grants:
+                    return ("op %d: %d raised calls that sent an ack-eliciting packet and consumed the flag after %d grant(s)"
+                            % (i, probes, grants),
+                            {"rule": "probe_allowance", "level": "connection", "suite": "probebudget", "cause": "more_probes_than_grants"})
+        pp = exp[-1]
+    return None
+
+
+def pb_suite(ctx):
+    return corr.Suite(ctx, "probebudget", "exec_probebudget",
+                      encode=lambda c: [t for o in c["ops"] for t in o["op"]],
+                      impl=lambda c: [t for o in c["ops"] for t in o["exp"]],
+                      oracle=pb_oracle,
+                      nontrivial=lambda c, out: any(o["op"][0] == 3 and o["exp"][0] for o in c["ops"]))
+
+
+def pb_runs(ctx):
+    hists = list(PB_HISTORIES)
+    del PB_HISTORIES[:]
+    cases, skipped = pb_chunks(hists)
+    st = {"endpoints": len(hists), "cases": len(cases), "ops": 0, "timeouts": 0, "probe_timeouts": 0, "early": 0, "calls": 0,
+          "raised_calls": 0, "raised_ae_calls": 0, "flag_kept_after_raised_ae": 0, "packet_iterations": 0,
+          "stop_ahead_of_ping": 0, "ping_stop": 0, "handshake_level_calls": 0, "calls_skipped_hs_ack_ping": skipped,
+          "projection_installed": int(bool(hists)) }
+    for c in cases:
+        for o in c["ops"]:
+            if o.get("synthetic"):
+                continue
+            st["ops"] += 1
+            op, exp = o["op"], o["exp"]
+            if op[0] == 0:
+                st["timeouts"] += 1
+                st["probe_timeouts"] += int(bool(op[1]))
+            elif op[0] == 1:
+                st["early"] += 1
+            elif op[0] == 3:
+                st["calls"] += 1
+                st["raised_calls"] += exp[0]
+                st["raised_ae_calls"] += int(exp[0] and exp[1])
+                st["flag_kept_after_raised_ae"] += int(exp[0] and exp[1] and exp[2])
+                st["packet_iterations"] += o.get("iters", 0)
+                st["handshake_level_calls"] += int(not op[6])
+                st["stop_ahead_of_ping"] += o.get("stop_before", 0)
+                st["ping_stop"] += o.get("ping_stop", 0)
+    ps = pb_suite(ctx)
+    # the whole quick tier is run: the model costs microseconds per op
+    ps.run(cases)
+    st["disagreements"] = ps.stats["disagreements"]
+    st["oracle_failures"] = ps.stats["oracle_failures"]
+    return ps, st
+
+
 def run(ctx):
     import time
     s = suite(ctx)
@@ -1737,6 +2073,9 @@ def run(ctx):
             ctx.known = list(ctx.known) + [kf]
     system = system_runs(ctx, ctx.n(24, 200))
     probing = probe_runs(ctx, ctx.n(64, 600))
+    PB_ORIGIN[0] = None
+    # op-by-op tie of model/ProbeBudget.v: the histories projected from the system runs and the probe scenarios above
+    ps, probebudget = pb_runs(ctx)
     builder = builder_runs(ctx, ctx.n(4000, 60000))
     closing = close_rounds(ctx)
     # builder MODEL <-> QuicPacketBuilder on flight-shaped histories + the statement of flight_le_budget as oracle
@@ -1779,7 +2118,7 @@ def run(ctx):
                 ctx.violation("impl-violation", "builderflight: " + badc[0], {"builderflight": c}, signature=badc[1])
                 break
     return corr.merge_coverage(
-        [s, fs],
+        [s, fs, ps],
         "op histories on the real QuicPacketRecovery (3 spaces, reno and cubic alternating): sends with all flag "
         "combinations, ack range sets with gaps / never-sent / already-acked / repeated numbers, loss timer and PTO "
         "firings at, after and before get_loss_detection_time, discards with packets in flight, reschedule_data, "
@@ -1788,7 +2127,7 @@ def run(ctx):
         {"exhaustive_small_scope": skipped < len(rnd) + len(lng) or skipped == 0, "exhaustive_cases": len(ex),
          "cases_skipped_by_time_guard": skipped, "system_tie": system, "builder_flight_budget": builder,
          "builder_model_tie": fl_hist, "builder_sessions_of_real_connections": real, "close_round": closing,
-         "probe_allowance": probing,
+         "probe_allowance": probing, "probebudget_tie": probebudget,
          "generated": {"exhaustive": len(ex), "random": len(rnd), "long": len(lng)}})
 
 
@@ -1816,6 +2155,25 @@ def replay(ctx, rep):
         p = case["sim"]
         log, st = sim_run(p["seed"], p["cc"], p["loss"], p["nbytes"], extra=p.get("extra", False))
         return {"system": {"violations": log[:10], "stats": st}}
+    if isinstance(case, dict) and "origin" in case and "ops" in case:
+        # a probebudget case: re-run the scenario it was projected from, project again, compare with the model
+        org = case["origin"] or {}
+        del PB_HISTORIES[:]
+        PB_ORIGIN[0] = org
+        if "probe" in org:
+            probe_run(org["probe"])
+        elif "sim" in org:
+            p = org["sim"]
+            sim_run(p["seed"], p["cc"], p["loss"], p["nbytes"], extra=p.get("extra", False))
+        cases, _ = pb_chunks(list(PB_HISTORIES))
+        del PB_HISTORIES[:]
+        ps = pb_suite(ctx)
+        out = []
+        for c in cases:
+            d, e, g = ps.disagree(c)
+            if d or pb_oracle(c):
+                out.append({"chunk": c["chunk"], "impl": e, "model": g, "oracle": pb_oracle(c)})
+        return {"probebudget": {"cases": len(cases), "bad": out[:5], "stored_case_oracle": pb_oracle(case)}}
     if isinstance(case, dict) and "probe" in case:
         log, st = probe_run(case["probe"])
         return {"probe": {"violations": log[:10], "stats": st}}
